@@ -695,7 +695,12 @@ def r7(ctx, rep):
                     pp = par.get(id(cur))
                     if pp is None:
                         break
-                    if pp.get("k") == "if" and show(pp["c"]) == "(left.as_ref() == right.as_ref())" and (pp["t"] is cur or guards._contains(pp["t"], cur)):
+                    same = ("(left.as_ref() == right.as_ref())", "left.as_ref() == right.as_ref()", "(right.as_ref() == left.as_ref())", "right.as_ref() == left.as_ref()")
+                    if pp.get("k") == "if" and show(pp["c"]) in same and (pp["t"] is cur or guards._contains(pp["t"], cur)):
+                        ok_g = True
+                        break
+                    # the same test as the guard of the match arm the result is in
+                    if pp.get("k") == "match" and any(a.get("guard") is not None and show(a["guard"]) in same and (a["body"] is r or guards._contains(a["body"], r)) for a in pp["arms"]):
                         ok_g = True
                         break
                     cur = pp
